@@ -191,6 +191,10 @@ def install(reg, src):
                 t = res.t if isinstance(res, SBool) else z3.BoolVal(bool(res))
                 return z3.Implies(t, z3.And(sp.ispoly(e), sp.sdeg(e) <= bound, sp.syn(e) if bound <= 1 else z3.BoolVal(True)))
             c.ensures("poly", post)
+            if bound == 1 and not c.verifying:
+                # naming of the (deterministic) answer, used where a cache must equal a fresh computation (C13)
+                ISLIN = sym.fn("ISLIN", sym.Ref, sym.B)
+                c.ensures("functional", lambda res: (res.t if isinstance(res, SBool) else z3.BoolVal(bool(res))) == ISLIN(sp.ref(e)))
     lin_contract(f"{M}:is_linear", 1)
     lin_contract(f"{M}:is_quadratic", 2)
     lin_contract("optyx.core.expressions:Expression.is_linear", 1, argname="self")
